@@ -5,6 +5,7 @@ mod common;
 mod eval;
 mod front;
 mod gen;
+mod glue;
 mod oracles;
 mod proto;
 
@@ -27,6 +28,9 @@ fn main() {
         "k5" => front::k5(dir, thorough, seed),
         "k6" => front::k6(dir, thorough, seed),
         "k7" => eval::k7(dir, thorough, seed),
+        "k8" => glue::k8(dir, thorough, seed),
+        "k9" => glue::k9(dir, thorough, seed),
+        "k10" => glue::k10(dir, thorough, seed),
         "o02" => oracles::o02(dir, thorough, seed),
         "o04" => oracles::o04(dir, thorough, seed),
         "o08" => oracles::o08(dir, thorough, seed),
